@@ -187,7 +187,12 @@ def compile_col_expr(
             # arrangement are specified, we manually add the descending and
             # nulls_last markers to the ordering.
             if arrange:
-                order_by = merge_desc_nulls_last(order_by, descending, nulls_last)
+                # unique names: two ordering expressions over the same column would
+                # otherwise collide ("multiple fields with name ...")
+                order_by = [
+                    ord.alias(f"__order_by_{i}__")
+                    for i, ord in enumerate(merge_desc_nulls_last(order_by, descending, nulls_last))
+                ]
             else:
                 order_by = None
             value = value.over(partition_by, order_by=order_by)
